@@ -31,16 +31,16 @@ package predicate
 
 //@ props C06
 //@ func (p *Predicate) UUID
-//@   trusted hash of id and anchor; definedness and injectivity are the subject of C06
-//@   pure
+//@   opt axioms pu-def
 //@   requires p != nil
-//@   ensures result == pu(p) && len(result) == 16
+//@   ensures[hash-of-id-kind-anchor] result == sha16(predEnc(p.id, p.anchor != nil, wrap64(tinst(deref(p.anchor)))))
+//@   ensures[is-pu] result == pu(p) && len(result) == 16
 
 //@ func (p *Predicate) PartialUUID
-//@   trusted hash of the id; definedness and injectivity are the subject of C06
-//@   pure
+//@   opt axioms ppu-def
 //@   requires p != nil
-//@   ensures result == ppu(p) && len(result) == 16
+//@   ensures[hash-of-id] result == sha16(p.id)
+//@   ensures[is-ppu] result == ppu(p) && len(result) == 16
 
 // pstr(p): the printed form of a predicate (Predicate.String). Its relation to Parse is the subject of C05.
 //@ spec func pstr(p *Predicate) String
